@@ -23,6 +23,7 @@ from __future__ import annotations
 import ast
 import inspect
 import os
+import json
 from typing import Any, Dict, List
 
 from vt import shapes
@@ -174,6 +175,114 @@ def _u5(x: int, i: int, j: int, placed: int):
         return Fail("C07.U5:param-value-after-same-named-class", "SER says factor=%r, the processor received %r (an earlier run used a same-named class with default %r)" % ((p.get("parameters") or {}).get("factor"), got, d1))
     if (p.get("parameter_sources") or {}).get("factor") != exp_src:
         return Fail("C07.U5:param-source-after-same-named-class", "SER says source %r, actual %r" % ((p.get("parameter_sources") or {}).get("factor"), exp_src))
+    return True
+
+
+# --------------------------------------------------------------------------------------------- T timestamps at boundaries
+_FRACS = (0.0, 0.0004, 0.0005, 0.4995, 0.9989, 0.9994, 0.9995, 0.99951, 0.99999)
+_BASES = (1700000000, 1700000059, 1709251199, 1735689599)  # ordinary second; :59 of a minute; last second of Feb 29 2024; last second of 2024 (UTC)
+
+
+def _t(fi: int, bi: int, failing: bool):
+    from crosshair.tracers import NoTracing
+    from vt.engine import assume
+
+    assume(0 <= fi < len(_FRACS) and 0 <= bi < len(_BASES))
+    cf, cb = next(i for i in range(len(_FRACS)) if fi == i), next(i for i in range(len(_BASES)) if bi == i)
+    with NoTracing():
+        from vt import stubs
+
+        with stubs.suspended():
+            return _t_body(cf, cb, True if failing else False)
+
+
+def _t_body(fi, bi, failing):
+    """Real traced run (real JSONL driver, real orchestrator) under a controlled wall clock whose readings start at a
+    boundary instant (sub-second part near .0005 / .9995 / 1.0, second near a minute / day / year boundary): every
+    timestamp written must be RFC 3339 UTC, denote an instant inside the window of the clock's readings (+-1 ms), and the
+    stream must be non-decreasing."""
+    import datetime as _dt
+    import re
+    import uuid
+
+    import semantiva.execution.orchestrator.orchestrator as orch
+    import semantiva.trace.drivers.jsonl as jl
+    from semantiva.trace.drivers.jsonl import JsonlTraceDriver
+    from vt import lib
+    from vt.props import C06
+
+    lib.register()
+    t0 = _BASES[bi] + _FRACS[fi]
+    reads: List[float] = []
+
+    def now() -> float:
+        reads.append(t0 + 0.00011 * len(reads))
+        return reads[-1]
+
+    class _Time:
+        @staticmethod
+        def time():
+            return now()
+
+        @staticmethod
+        def process_time():
+            return 0.0
+
+        gmtime = staticmethod(__import__("time").gmtime)
+        strftime = staticmethod(__import__("time").strftime)
+
+    class _DT(_dt.datetime):
+        @classmethod
+        def now(cls, tz=None):
+            return _dt.datetime.fromtimestamp(now(), tz)
+
+        @classmethod
+        def utcnow(cls):
+            return _dt.datetime.utcfromtimestamp(now())
+
+    saved = (orch.time, orch.datetime, jl.datetime)
+    orch.time, orch.datetime, jl.datetime = _Time, _DT, _DT
+    path = os.path.join(C06._scratch(), "ts-%s.jsonl" % uuid.uuid4().hex[:8])
+    try:
+        nodes = [{"processor": lib.OpAddDef, "parameters": {}}, {"processor": lib.OpBoom if failing else lib.OpAff, "parameters": {}}]
+        try:
+            lib.run_pipeline(nodes, lib.IntData(1), {}, trace=JsonlTraceDriver(path))
+        except Exception:  # noqa: BLE001
+            pass
+    finally:
+        orch.time, orch.datetime, jl.datetime = saved
+    with open(path) as fh:
+        recs = [json.loads(ln) for ln in fh.read().split("\n") if ln.strip()]
+    stamps: List[str] = []
+    for r in recs:
+        if "timestamp" in r:
+            stamps.append(r["timestamp"])
+        tm = r.get("timing") or {}
+        for k in ("started_at", "finished_at"):
+            if tm.get(k):
+                stamps.append(tm[k])
+    if not stamps or not reads:
+        return Fail("C07.T:no-timestamps", "no timestamps / clock readings (%d/%d)" % (len(stamps), len(reads)))
+    pat = re.compile(r"^(\d{4})-(\d\d)-(\d\d)T(\d\d):(\d\d):(\d\d)(?:\.(\d{1,9}))?Z$")
+    lo, hi = min(reads) - 0.001, max(reads) + 0.001
+    prev = None
+    for sidx, st in enumerate(stamps):
+        m = pat.match(st)
+        if not m:
+            return Fail("C07.T:not-rfc3339-utc", "timestamp %r is not RFC 3339 with a Z designator" % (st,))
+        y, mo, d, h, mi, se = (int(x) for x in m.groups()[:6])
+        frac = m.group(7) or ""
+        if len(frac) not in (0, 3, 6):
+            return Fail("C07.T:fraction-digits", "timestamp %r has %d fractional digits (milliseconds announced)" % (st, len(frac)))
+        try:
+            inst = _dt.datetime(y, mo, d, h, mi, se, tzinfo=_dt.timezone.utc).timestamp() + (int(frac) / (10 ** len(frac)) if frac else 0.0)
+        except ValueError:
+            return Fail("C07.T:not-a-date", "timestamp %r is not a date" % (st,))
+        if not (lo <= inst <= hi):
+            return Fail("C07.T:instant-off", "timestamp %r denotes %.4f, the clock read %.4f .. %.4f during the run" % (st, inst, min(reads), max(reads)))
+        if prev is not None and inst < prev[0]:
+            return Fail("C07.T:stream-goes-back", "timestamp %r (%.4f) follows %r (%.4f) in the stream" % (st, inst, prev[1], prev[0]))
+        prev = (inst, st)
     return True
 
 
@@ -594,6 +703,9 @@ def obligations(tier: str) -> List[Ob]:
     R = C01._replay_simple
     return [
         Ob("C07.U1", _make_u1, lambda p, a: R(_u1)(p, dict(a, ka=p[0], la=p[1])), params=[(x, y) for x in range(4) for y in range(4)], budget=900, per_path=60, bound="keys a,b present/absent in pre and post by 4 flags; value kind (int, bool, None, list) and small int payload symbolic; real _stable_equal", targets=["semantiva/trace/delta_collector.py:DeltaCollector.compute", "semantiva/trace/delta_collector.py:_stable_equal", "semantiva/trace/_utils.py:serialize"]),
+        Ob("C07.T", lambda _p: _t, lambda _p, a: R(_t_body)(_p, {"fi": a["fi"], "bi": a["bi"], "failing": a["failing"]}), budget=300,
+           bound="controlled wall clock: first reading = one of 4 base seconds (ordinary, :59, end of Feb 29, end of year) + one of 9 sub-second parts around .0005 / .9995 / 1 (symbolic indices), later readings +0.11 ms each; succeeding or failing 2-node run; real JSONL driver",
+           targets=["semantiva/execution/orchestrator/orchestrator.py:SemantivaOrchestrator._iso_now", "semantiva/execution/orchestrator/orchestrator.py:SemantivaOrchestrator._start_timing", "semantiva/execution/orchestrator/orchestrator.py:SemantivaOrchestrator._end_timing", "semantiva/trace/drivers/jsonl.py:JsonlTraceDriver._now_timestamp"]),
         Ob("C07.U5", lambda _p: _u5, R(_u5), budget=300, per_path=60, bound="two classes with one qualified name and defaults picked by symbolic indices from {2, 5, -1}, run one after the other (traced); the parameter of the second placed in default / node / context (selector); payload symbolic", targets=["semantiva/execution/orchestrator/orchestrator.py:SemantivaOrchestrator._resolve_params_with_sources"], stubs=list(STUBS)),
         Ob("C07.U4", lambda _p: _u4, R(_u4), budget=120, bound="clock start and non-negative advance symbolic (whole seconds)", targets=["semantiva/execution/orchestrator/orchestrator.py:SemantivaOrchestrator._end_timing"]),
         Ob("C07.P1", _make_p1, _replay_p1, params=templates(tier), budget=400 if not big else 900, per_path=60,
